@@ -88,6 +88,9 @@ def eval_term(tm, leaf: t.Callable[[tuple], t.Any]):
         lo = eval_term(tm[2], leaf) if tm[2] is not None else None
         hi = eval_term(tm[3], leaf) if tm[3] is not None else None
         return base[lo:hi]
+    if tag == "call" and tm[1][0] == "ext" and tm[1][1] in ("min", "max", "abs", "int", "round", "float") and tm[2] and not tm[3]:
+        import builtins
+        return getattr(builtins, tm[1][1])(*[eval_term(a, leaf) for a in tm[2]])
     if tag == "call" and tm[1] == ("ext", "len") and len(tm[2]) == 1:
         return len(eval_term(tm[2][0], leaf))
     if tag == "call" and tm[1] == ("ext", "bool") and len(tm[2]) == 1:
